@@ -10,7 +10,8 @@ from typing import Dict, List, Optional, Set, Tuple
 
 from . import common, gen_ref, pipe
 
-CLS = {'SNV': 'S', 'RNAEditingSite': 'S', 'INDEL': 'I'}
+CLS = {'SNV': 'S', 'RNAEditingSite': 'S', 'INDEL': 'I', 'Deletion': 'D', 'Insertion': 'O',
+       'Substitution': 'O'}
 
 
 def tx_inputs(case: gen_ref.Case, anno, genome):
@@ -34,12 +35,31 @@ def tx_inputs(case: gen_ref.Case, anno, genome):
             'start_nf': tx_model.is_cds_start_nf(),
             'end_nf': tx_model.is_mrna_end_nf(),
             'sec': [int(s.start) for s in tx_seq.selenocysteine],
-            'vars': [(int(v.location.start), int(v.location.end), str(v.ref), str(v.alt),
-                      v.type, v.id) for v in series.transcriptional],
+            'vars': [as_var(v, tx_seq, gene_seq_of(anno, genome, tx_model)) for v in series.transcriptional],
             'n_fusion': len(series.fusion), 'n_circ': len(series.circ_rna),
             'n_intronic': len(series.intronic),
         }
     return out
+
+
+def gene_seq_of(anno, genome, tx_model):
+    gm = anno.genes[tx_model.transcript.gene_id]
+    return str(gm.get_gene_sequence(genome[gm.chrom]).seq)
+
+
+def as_var(v, tx_seq, gene_seq):
+    """(start, end, ref, alt, type, id) in transcript coordinates; alternative-splicing records
+    are written out as the replacement the documented semantics prescribes"""
+    s, e = int(v.location.start), int(v.location.end)
+    tx = str(tx_seq.seq)
+    if v.type == 'Deletion':
+        return (s, e, tx[s:e], tx[s:s + 1], 'Deletion', v.id)
+    if v.type in ('Insertion', 'Substitution'):
+        donor = gene_seq[v.get_donor_start():v.get_donor_end()]
+        if v.type == 'Insertion':
+            return (s, e, tx[s:e], tx[s:s + 1] + donor, 'Insertion', v.id)
+        return (s, e, tx[s:e], donor, 'Substitution', v.id)
+    return (s, e, str(v.ref), str(v.alt), v.type, v.id)
 
 
 def resolve_exc(kw: dict) -> Optional[str]:
@@ -140,6 +160,19 @@ def build_input(seed: int, opts: dict):
                                            max_size=opts.get('max_size', 4),
                                            snv_frac=opts.get('snv_frac', 0.55),
                                            window=opts.get('window', 40))
+        if opts.get('as_frac', 0) > 0:
+            import random as _r
+            from moPepGen import fake
+            for tx_id in anno.transcripts:
+                if rng.random() < opts['as_frac'] and len(anno.transcripts[tx_id].exon) >= 3:
+                    _r.seed(rng.randrange(1 << 30))
+                    for _ in range(rng.choice([1, 1, 2])):
+                        try:
+                            rec = fake.fake_rmats_record(anno, genome, tx_id)
+                        except Exception:   # noqa
+                            continue
+                        if rec.id not in {r.id for r in recs}:
+                            recs.append(rec)
         gen_ref.write_gvfs(case, recs)
     return case, genome, anno, recs, rng
 
